@@ -621,8 +621,31 @@ type c12Fix struct {
 	// jenny emits a plain struct for it (finding C01/cue/nullable-union-of-structs-not-discriminated) → unconstrained
 	enumSign bool // CUE one-member enum of a negative integer (`-1 @cog(kind="enum",memberNames="Neg1")`) reaches the
 	// IR with the sign lost (member Neg1 = 1): the emitted `enum: [1]` rejects the source value → admit the negated value
-	bytes bool // array of uint8 is Go `[]byte`, which encoding/json writes as a base64 string (finding
+	bigInt bool // enumeration member / constant beyond ±2^53 (rounded by a front-end reading numbers as float64) → unconstrained
+	bytes  bool // array of uint8 is Go `[]byte`, which encoding/json writes as a base64 string (finding
 	// C01/cue/array-of-uint8-is-bytes) while the schema says array of integer → unconstrained
+}
+
+// c12HoldsBigInt: an enumeration member or constant whose integer value no float64 holds exactly or at all
+// beyond 2^53 (a front-end that reads numbers as float64 rounds it).
+func c12HoldsBigInt(t ast.Type) bool {
+	big := func(v any) bool {
+		switch x := v.(type) {
+		case int64:
+			return x >= 1<<53 || x <= -(1<<53)
+		case float64:
+			return x >= 1<<53 || x <= -(1<<53)
+		}
+		return false
+	}
+	if t.Kind == ast.KindEnum && t.Enum != nil {
+		for _, v := range t.Enum.Values {
+			if big(v.Value) {
+				return true
+			}
+		}
+	}
+	return t.Kind == ast.KindScalar && t.Scalar != nil && big(t.Scalar.Value)
 }
 
 func c12IsByteArray(t ast.Type) bool {
@@ -663,6 +686,8 @@ func c12RepairNode(t ast.Type, node JV, fix c12Fix) JV {
 	}
 	out := node.clone()
 	switch {
+	case fix.bigInt && c12HoldsBigInt(t):
+		out = jObj()
 	case t.Kind == ast.KindScalar && t.Scalar != nil && t.Scalar.ScalarKind == ast.KindAny, t.Kind == ast.KindComposableSlot:
 		if fix.any {
 			out = jObj()
@@ -732,13 +757,13 @@ func c12Repair(schema *ast.Schema, emitted JV, fix c12Fix) JV {
 }
 
 // c12ExplainedBy: the smallest set of recorded mechanisms whose repair in the emitted schema makes the
-// document valid ("any", "nullable", "nullunion", "enumsign", "bytes", joined by + in that order); "" when none does.
+// document valid ("any", "nullable", "nullunion", "enumsign", "bytes", "float64int", joined by + in that order); "" when none does.
 func c12ExplainedBy(schema *ast.Schema, emitted JV, root string, doc JV) string {
 	type cand struct {
 		name string
 		fix  c12Fix
 	}
-	names := []string{"any", "nullable", "nullunion", "enumsign", "bytes"}
+	names := []string{"any", "nullable", "nullunion", "enumsign", "bytes", "float64int"}
 	var cands []cand
 	for size := 1; size <= len(names); size++ {
 		for mask := 1; mask < 1<<len(names); mask++ {
@@ -752,7 +777,7 @@ func c12ExplainedBy(schema *ast.Schema, emitted JV, root string, doc JV) string 
 				continue
 			}
 			cands = append(cands, cand{strings.Join(parts, "+"),
-				c12Fix{any: mask&1 != 0, null: mask&2 != 0, nullUnion: mask&4 != 0, enumSign: mask&8 != 0, bytes: mask&16 != 0}})
+				c12Fix{any: mask&1 != 0, null: mask&2 != 0, nullUnion: mask&4 != 0, enumSign: mask&8 != 0, bytes: mask&16 != 0, bigInt: mask&32 != 0}})
 		}
 	}
 	for _, c := range cands {
